@@ -45,13 +45,14 @@ def run(chk):
         bcfg = {"kind": bkind, "n_basis_modes": m}
         ocfg = opt_configs(rng, n, m)[int(rng.integers(0, 6))]
         s1, s2 = int(rng.integers(0, 10 ** 6)), int(rng.integers(0, 10 ** 6))
-        case = {"X": X.tolist(), "matrix_kind": kind, "basis": bcfg, "opt": ocfg, "seeds": [s1, s2]}
+        nsens = None if rng.random() < 0.4 else int(rng.integers(1, n + 1))      # the requested count (also below n_basis_modes) must not matter
+        case = {"X": X.tolist(), "matrix_kind": kind, "basis": bcfg, "opt": ocfg, "seeds": [s1, s2], "n_sensors": nsens}
         try:
-            m1, cfg2, kws = fit_once(X, bcfg, ocfg, s1)
+            m1, cfg2, kws = fit_once(X, bcfg, ocfg, s1, nsens)
             a1 = [int(i) for i in m1.all_sensors]
             Bm = np.array(m1.basis_matrix_)
-            a2 = [int(i) for i in fit_once(X, bcfg, ocfg, s2)[0].all_sensors]
-            a1b = [int(i) for i in fit_once(X, bcfg, ocfg, s1)[0].all_sensors]
+            a2 = [int(i) for i in fit_once(X, bcfg, ocfg, s2, nsens)[0].all_sensors]
+            a1b = [int(i) for i in fit_once(X, bcfg, ocfg, s1, nsens)[0].all_sensors]
             # the SAME object fitted again (seed 2, then seed 1 again): fitting twice must give the identical ranking
             impl.quiet(m1.fit, X, seed=s2, quiet=True, **kws)
             a2_same = [int(i) for i in m1.all_sensors]
@@ -67,6 +68,7 @@ def run(chk):
         chk.case(case, nontrivial=(n - mm) >= 2)
         chk.count("basis:" + bkind)
         chk.count("opt:" + ocfg["kind"])
+        chk.count("n_sensors:" + ("default" if nsens is None else ("below_modes" if nsens < mm else "at_or_above_modes")))
         chk.count("tail_differs" if a1 != a2 else "tail_same")
         obs = {"r": r, "a1": a1, "a2": a2, "a1_again": a1b}
         if a1[:mm] != a2[:mm]:
